@@ -2,6 +2,7 @@ import Driver.Core
 import Replicon.Model.Wire
 import Replicon.Model.Tick
 import Replicon.Model.Visibility
+import Replicon.Model.Packing
 /-
 Trace checker for replication system traces (`/verif/harness/src/sys.rs`).
 
@@ -380,13 +381,38 @@ def checkFrame (st : State) (snap : Snap) (fm : FrameMsgs) (ticked : Bool) : Lis
               else pure ()
             | none => acc := acc ++ [sz]
         return acc
+      -- with per-tick tracking the server reserves the maximum size of the message counter
+      -- (10 bytes) while splitting and writes 1 byte afterwards
+      let resHdr := if st.track then hdr + 9 else hdr
       let fits := !chunkSizes.isEmpty && chunkSizes.all fun s => hdr + s ≤ maxSize
+      let fitsRes := !chunkSizes.isEmpty && chunkSizes.all fun s => resHdr + s ≤ maxSize
       if fits then
         for (_, m, len) in msgs do
           if len > maxSize then
-            vs := vs ++ [Verdict.oracle "C10" s!"tick {snap.tick}, client {c}: mutate message of {len} bytes exceeds max size {maxSize} although every entity/group fits (chunks {chunkSizes}, header {hdr}, entities {m.ents.length})"]
+            let tag := if fitsRes then "" else "[F22] "
+            vs := vs ++ [Verdict.oracle "C10" s!"{tag}tick {snap.tick}, client {c}: mutate message of {len} bytes exceeds max size {maxSize} although every entity/group fits (chunks {chunkSizes}, header {hdr}, reserved header {resHdr}, entities {m.ents.length})"]
+      -- model vs implementation: the chunking loop of `Mutations::send` (Model/Packing.lean)
+      -- reproduces the real partition of the chunk sequence into messages
+      let realParts : List (List Nat) := msgs.map fun (_, m, _) => Id.run do
+        let mut parts : List (Nat × List Nat) := []     -- (chunk size, group) in order
+        for (e, sz) in m.ents.zip m.sizes do
+          let grp := match lookupBits st e.ent with
+            | some i => if st.sync then groupOf snap.ents i else [i]
+            | none => []
+          match parts.getLast? with
+          | some (s0, g0) =>
+            if st.sync && g0 = grp && grp.length > 1 then parts := parts.dropLast ++ [(s0 + sz, g0)]
+            else parts := parts ++ [(sz, grp)]
+          | none => parts := parts ++ [(sz, grp)]
+        return parts.map (·.1)
+      let splitHdr := if st.track then hdr + 9 else hdr
+      if maxSize > 0 then
+        let model := Packing.split splitHdr maxSize realParts.flatten st.track
+        if model ≠ realParts then
+          vs := vs ++ [Verdict.mismatch "C10" s!"tick {snap.tick}, client {c}: real messages hold chunks {realParts}, the model of Mutations::send splits {realParts.flatten} (header {splitHdr}, max {maxSize}) into {model}"]
       if hdr + chunkSizes.sum ≤ maxSize && msgs.length > 1 && !chunkSizes.isEmpty then
-        vs := vs ++ [Verdict.oracle "C10" s!"tick {snap.tick}, client {c}: {msgs.length} mutate messages although everything fits into one (chunks {chunkSizes}, header {hdr}, max {maxSize})"]
+        let tag := if resHdr + chunkSizes.sum ≤ maxSize then "" else "[F22] "
+        vs := vs ++ [Verdict.oracle "C10" s!"{tag}tick {snap.tick}, client {c}: {msgs.length} mutate messages although everything fits into one (chunks {chunkSizes}, header {hdr}, reserved header {resHdr}, max {maxSize})"]
   -- C11: an idle, fully acknowledged server is silent (checked in the late rounds of a flush)
   if st.inFlush && st.flushRound ≥ 6 && !st.track then
     if !fm.updates.isEmpty || !fm.mutates.isEmpty then
